@@ -78,3 +78,66 @@ package shard
 //@   requires s.cacheManager != nil
 //@   ensures ncalls(NewTransaction) == 1 && ncalls(Commit) == 1 && ncalls(Write) == 1
 //@   ensures lastarg(Commit, 1) == (err != nil) && (err != nil) == (lastres(Write) != nil)
+
+// ---- insert / update / delete of stored points: per-point steps (property C01) ----
+//@ func (*IdCounter).NextId
+//@   property C01 C10
+//@   safety -overflow
+//@   modifies ic.freeIds, ic.nextFreeId
+//@   ensures len(old(ic.freeIds)) == 0 ==> result == old(ic.nextFreeId) && ic.nextFreeId == old(ic.nextFreeId) + 1 && len(ic.freeIds) == 0
+//@   ensures len(old(ic.freeIds)) > 0 ==> result == old(ic.freeIds[0]) && ic.nextFreeId == old(ic.nextFreeId) && len(ic.freeIds) == len(old(ic.freeIds)) - 1
+//@   ensures len(old(ic.freeIds)) > 0 ==> forall(k, 0, len(ic.freeIds), ic.freeIds[k] == old(ic.freeIds[k+1]))
+
+//@ func (*IdCounter).FreeId
+//@   property C01 C10
+//@   safety -overflow
+//@   modifies ic.freeIds, contents(ic.freeIds)
+//@   ensures len(ic.freeIds) == len(old(ic.freeIds)) + 1 && ic.freeIds[len(ic.freeIds)-1] == id && ic.nextFreeId == old(ic.nextFreeId)
+//@   ensures forall(k, 0, len(old(ic.freeIds)), ic.freeIds[k] == old(ic.freeIds[k]))
+
+//@ func (*IdCounter).MaxId
+//@   property C01 C10
+//@   safety -overflow
+//@   pure
+//@   ensures result == ic.nextFreeId - 1
+
+// the stored point count is the previous count plus the change; a negative result is refused
+// before anything is written
+//@ func changePointCount
+//@   property C01
+//@   pure
+//@   safety -overflow
+//@   ensures result == nil ==> ncalls(Put) == 1 && len(callarg(Put, 1, 2)) == 8 && int(le64at(callarg(Put, 1, 2), 0)) == ite(callres(Get, 1, 0) == nil, 0, int(le64at(callres(Get, 1, 0), 0))) + change
+//@   ensures ite(callres(Get, 1, 0) == nil, 0, int(le64at(callres(Get, 1, 0), 0))) + change < 0 ==> result != nil && ncalls(Put) == 0
+
+// insert step: an id that is already stored is an error and nothing is written; otherwise the
+// point is written under a node id taken from the counter and handed to the indexes with it
+//@ func (*Shard).InsertPoints$1$1
+//@   property C01
+//@   ensures callres(CheckPointExists, 1, 0) ==> err != nil && ncalls(SetPoint) == 0 && ncalls(NextId) == 0
+//@   ensures err == nil ==> !skip && ncalls(SetPoint) == 1 && ncalls(NextId) == 1
+//@   ensures err == nil ==> callarg(SetPoint, 1, 1).NodeId == callres(NextId, 1, 0) && callarg(SetPoint, 1, 1).Point.Id == point.Id && callarg(SetPoint, 1, 1).Point.Data == point.Data
+//@   ensures err == nil ==> ipc.NodeId == callres(NextId, 1, 0) && ipc.NewData == point.Data
+
+// update step: unknown ids are skipped without writing; an existing id is never skipped, is written
+// back under its existing node id and is reported as updated
+//@ func (*Shard).UpdatePoints$1$1
+//@   property C01
+//@   safety -overflow
+//@   ensures skip ==> callres(GetPointByUUID, 1, 1) == pointstore.ErrPointDoesNotExist && ncalls(SetPoint) == 0 && len(updatedIds) == old(len(updatedIds))
+//@   ensures callres(GetPointByUUID, 1, 1) == nil ==> !skip
+//@   ensures err != nil ==> len(updatedIds) == old(len(updatedIds))
+//@   ensures !skip && err == nil ==> ncalls(SetPoint) == 1 && callarg(SetPoint, 1, 1).NodeId == callres(GetPointByUUID, 1, 0).NodeId && callarg(SetPoint, 1, 1).Point.Id == point.Id
+//@   ensures !skip && err == nil ==> len(updatedIds) == old(len(updatedIds)) + 1 && updatedIds[len(updatedIds)-1] == point.Id
+//@   ensures !skip && err == nil ==> ipc.NodeId == callres(GetPointByUUID, 1, 0).NodeId && ipc.PreviousData == callres(GetPointByUUID, 1, 0).Point.Data
+
+// delete step: unknown ids are skipped; an existing id is reported, its node id is released and
+// all its keys are removed
+//@ func (*Shard).DeletePoints$1$1
+//@   property C01
+//@   safety -overflow
+//@   ensures skip ==> callres(GetPointByUUID, 1, 1) == pointstore.ErrPointDoesNotExist && ncalls(DeletePoint) == 0 && ncalls(FreeId) == 0 && len(deletedIds) == old(len(deletedIds))
+//@   ensures callres(GetPointByUUID, 1, 1) == nil ==> !skip && ncalls(FreeId) == 1 && ncalls(DeletePoint) == 1
+//@   ensures callres(GetPointByUUID, 1, 1) == nil ==> callarg(FreeId, 1, 1) == callres(GetPointByUUID, 1, 0).NodeId && callarg(DeletePoint, 1, 2) == callres(GetPointByUUID, 1, 0).NodeId && callarg(DeletePoint, 1, 1) == pointId
+//@   ensures callres(GetPointByUUID, 1, 1) == nil ==> len(deletedIds) == old(len(deletedIds)) + 1 && deletedIds[len(deletedIds)-1] == pointId
+//@   ensures !skip && err == nil ==> ipc.NodeId == callres(GetPointByUUID, 1, 0).NodeId && ipc.PreviousData == callres(GetPointByUUID, 1, 0).Point.Data
